@@ -21,6 +21,7 @@ GL = %(GL)r
 Y = %(Y)r
 H = %(H)r
 d0 = %(d0)r
+L = %(L)r
 
 """
 
@@ -82,10 +83,20 @@ def adapt(text, params, role):
     return text, list(params)
 
 
+def with_condition_defaults(text, lam_params, role):
+    """Append `name=default` for the names of GR.DEFAULTED the condition loads (not for invariants: they take self only)."""
+    if role == "invariant":
+        return list(lam_params)
+    used = {n.id for n in ast.walk(ast.parse(text, mode="eval")) if isinstance(n, ast.Name)}
+    extra = ["%s=%r" % (k, v) for k, v in GR.DEFAULT_VALUES.items() if k in used]
+    return [p for p in lam_params if "=" not in p] + [p for p in lam_params if "=" in p] + [e for e in extra if e not in lam_params]
+
+
 def module_text(cond_text, lam_params, role="require", is_async=False, description="the-desc", layout=None, error=None,
                 a_repr=None, nest="func", above=(), below=(), prelude=""):
     """Return (module text, first line of the decorator, last line of the decorator, expected scope name)."""
     head = HEADER % GR.GLOBAL_VALUES + prelude
+    lam_params = with_condition_defaults(cond_text, lam_params, role)
     lam = "lambda %s: %s" % (", ".join(lam_params), cond_text)
     extra = ""
     if error:
